@@ -722,7 +722,11 @@ impl<V: ObjectWrite> ObjectWrite for HashMap<Name, V> {
         } else {
             let mut dict = Dictionary::new();
             for (k, v) in self.iter() {
-                dict.insert(k.clone(), v.to_primitive(update)?);
+                // (an entry whose value is null is the same as no entry; readers of V need not accept null)
+                let val = v.to_primitive(update)?;
+                if !matches!(val, Primitive::Null) {
+                    dict.insert(k.clone(), val);
+                }
             }
             Ok(Primitive::Dictionary(dict))
         }
